@@ -32,6 +32,8 @@ TECHNIQUE = "Lean 4 theorems (closed ABI table by decide; slot assignment and it
 
 def gen(ctx):
     rng = ctx.rng
+    for _src in G.corner_programs():
+        yield Case("CMP", "%s - -" % G.hx(_src), tags=("corner-grid",))
     n = 30000 if ctx.thorough else 1500
     for i in range(n):
         p = G.gen_program(rng, nrep=rng.randrange(0, 17), nctl=rng.randrange(0, 17)) if i % 3 else G.gen_program(rng)
